@@ -1117,6 +1117,37 @@ def bigmod_cases(rng, reps):
 
 
 # ------------------------------------------------------------------------------------------------
+# `**` with exponents NEAR one that gives integer dimensions (p/q +- 1e-10 … 2e-12): dim*e is non-integral in exact
+# arithmetic (by more than 1e-12) -> must raise
+# ------------------------------------------------------------------------------------------------
+def nearpow_cases(rng, reps):
+    out = []
+    fixed = [0.3333333334, 0.50000000001, 1.9999999999, 2.0000000001, 0.66666666667, -0.49999999999, 0.99999999999, 3.00000000002]
+    targets = [Fraction(1, 2), Fraction(1, 3), Fraction(2, 3), Fraction(-1, 2), Fraction(3, 2), Fraction(1), Fraction(2), Fraction(-1), Fraction(3)]
+    for rep in range(reps):
+        exps = list(fixed) if rep == 0 else []
+        for _ in range(10):
+            pq = rng.choice(targets)
+            delta = rng.choice([1, -1]) * rng.choice([1e-10, 3e-11, 1e-11, 5e-12, 2e-12])
+            exps.append(float(pq) + delta)
+        for e in exps:
+            fe = Fraction(e)
+            near = min(targets, key=lambda x: abs(x - fe))
+            q = near.denominator
+            d = tuple(q * rng.choice([0, 1, -1, 2, 1]) for _ in range(3))
+            if d == (0, 0, 0):
+                d = (q, 0, -q)
+            # exact arithmetic: some dim_k * e must miss every integer by more than 1e-12
+            if not any(abs(x * fe - round(x * fe)) > Fraction(1, 10 ** 12) for x in d):
+                continue
+            a = qty_leaf(rng, "val", d, 1, si_target=Fraction(rng.randint(2, 9999), rng.choice([1, 10, 1000])) , positive=True)
+            # oracle only: the exponent's exact rational has a 2^50-size denominator, which the driver's root approximation
+            # cannot take (the model raises on these by `pow_nonint_raises`; nothing to compare but raise-or-not)
+            out.append({"e": {"k": "pow", "a": a, "b": {"k": "leaf", "t": "num", "v": rstr(e), "py": "float"}}, "oracle_only": True})
+    return out
+
+
+# ------------------------------------------------------------------------------------------------
 # streams in ONE process: blocks of consecutive cases (`multi`) and sequences over a pool of live, re-used operands (`seq`)
 # ------------------------------------------------------------------------------------------------
 def run_multi(E, case):
@@ -1494,7 +1525,7 @@ def process(ctx, E, cases, label):
             ctx.count("expected_error_" + s)
         ctx.count("oracle_nodes", len(E.nodes))
     res = [None] * len(cases)
-    idx = [i for i, c in enumerate(cases) if "e" in c]      # the streams (multi / seq) are oracle only: the model is pure by construction
+    idx = [i for i, c in enumerate(cases) if "e" in c and not c.get("oracle_only")]      # the streams (multi / seq) are oracle only: the model is pure by construction
     B = 1500
     for i in range(0, len(idx), B):
         part = idx[i:i + B]
@@ -1576,6 +1607,8 @@ def run(ctx):
     process(ctx, E, table_cases(rng, E), "table_cases")
     # 1a. % with large non-integer quotients
     process(ctx, E, bigmod_cases(rng, ctx.n(12, 150)), "bigmod_cases")
+    # 1a'. ** with exponents within 1e-10 … 2e-12 of one giving integer dimensions (must raise)
+    process(ctx, E, nearpow_cases(rng, ctx.n(6, 80)), "nearpow_cases")
     # 1b. operands built from ndarrays of dtype float32 / int32 / int64 / uint8
     process(ctx, E, dtype_cases(rng, ctx.n(2, 20)), "dtype_cases")
     # 2. random trees
